@@ -527,6 +527,22 @@ pub fn run_c19(ctx: &mut Ctx) {
                 let mut v = g.mods.clone();
                 v.push((ItemPath::from(format!("{id}shadow").as_str()), clone.clone()));
                 variants.push(("same-names-elsewhere", v));
+                // the same module added BEFORE everything else, its extern types of the same
+                // names shrunk to one alignment unit or emptied (what M embeds by value must
+                // keep the size M's own declaration gives it, whoever declared the name first)
+                let mut small = clone.clone();
+                small.definitions.clear();
+                for (k, (_, a)) in small.extern_types.iter_mut().enumerate() {
+                    let orig = &g.mods[mi].1.extern_types[k].1;
+                    let al = crate::refmodel::attr_int(orig, "align").unwrap_or(1).max(1) as usize;
+                    let sz = crate::refmodel::attr_int(orig, "size").unwrap_or(0).max(0) as usize;
+                    *a = Attributes(vec![Attribute::size(if sz > al { al } else if sz == al { 0 } else { al }), Attribute::align(al)]);
+                }
+                if !small.extern_types.is_empty() {
+                    let mut v = g.mods.clone();
+                    v.insert(0, (ItemPath::from(format!("{id}aaa_first").as_str()), small));
+                    variants.push(("same-extern-names-declared-earlier-elsewhere", v));
+                }
                 let mut v = g.mods.clone();
                 v.push((ItemPath::from(format!("{mpath}::nested_shadow").as_str()), clone));
                 variants.push(("same-names-nested-under-M", v));
